@@ -221,13 +221,20 @@ Record bcfg := {
   bc_host : list N; bc_port : N;
   bc_plugin : list N -> list N -> option (option (list N));   (* LoginPlugin[channel](data): None = no handler, Some None = handler error *)
   bc_cookie : list N -> option (list N);          (* c.Cookies[key] *)
-  bc_registry : list N -> list N -> option bool;  (* c.Registries.Registry(id): None = nil (unknown id); Some ok = its ReadFrom(content) succeeded *)
+  bc_registry : list N -> list N -> option (option (list (list N * list N)));
+      (* c.Registries.Registry(id): None = nil (unknown id); Some None = its ReadFrom(content) failed;
+         Some (Some es) = it now holds the entries es = (key, network NBT image of the value) in id order *)
   bc_time : Z }.                                  (* startTime.Unix() of the ping *)
 
-Record bot := { b_ph : bphase; b_thr : Z; b_name : list N; b_uuid : list N }.
+(* b_regs: c.Registries as the log of the registries read so far, (registry id, entries), latest last *)
+Record bot := { b_ph : bphase; b_thr : Z; b_name : list N; b_uuid : list N;
+                b_regs : list (list N * list (list N * list N)) }.
 
 Definition b_set (b : bot) (ph : bphase) : bot :=
-  {| b_ph := ph; b_thr := b_thr b; b_name := b_name b; b_uuid := b_uuid b |}.
+  {| b_ph := ph; b_thr := b_thr b; b_name := b_name b; b_uuid := b_uuid b; b_regs := b_regs b |}.
+
+Definition b_add_reg (b : bot) (rid : list N) (es : list (list N * list N)) : bot :=
+  {| b_ph := b_ph b; b_thr := b_thr b; b_name := b_name b; b_uuid := b_uuid b; b_regs := b_regs b ++ [(rid, es)] |}.
 
 Definition bot_login (c : bcfg) (b : bot) (f : frame) : bot :=
   let id := f_id f in
@@ -240,13 +247,13 @@ Definition bot_login (c : bcfg) (b : bot) (f : frame) : bot :=
   else if id =? cbLoginGameProfile then
     match f_fields f with
     | FUUID u :: FString n :: _ =>
-        {| b_ph := BSend sbLoginAcknowledged [] BConfig; b_thr := b_thr b; b_name := n; b_uuid := u |}
+        {| b_ph := BSend sbLoginAcknowledged [] BConfig; b_thr := b_thr b; b_name := n; b_uuid := u; b_regs := b_regs b |}
     | _ => b_set b (BFailed stLoginSuccess)
     end
   else if id =? cbLoginCompression then
     match f_fields f with
     | FVarInt t :: _ =>
-        {| b_ph := BLogin; b_thr := t; b_name := b_name b; b_uuid := b_uuid b |}
+        {| b_ph := BLogin; b_thr := t; b_name := b_name b; b_uuid := b_uuid b; b_regs := b_regs b |}
     | _ => b_set b (BFailed stCompression)
     end
   else if id =? cbLoginCustomQuery then
@@ -300,8 +307,8 @@ Definition bot_config (c : bcfg) (b : bot) (f : frame) : bot :=
     match f_fields f with
     | FString rid :: rest =>
         match bc_registry c rid (match rest with FRaw d :: _ => d | _ => [] end) with
-        | Some true => b                         (* the registry now holds the entries read: next iteration *)
-        | Some false => b_set b (BFailed stRegistry)   (* "failed to read registry" *)
+        | Some (Some es) => b_add_reg b rid es   (* the registry now holds the entries read: next iteration *)
+        | Some None => b_set b (BFailed stRegistry)    (* "failed to read registry" *)
         | None => b_set b (BFailed stRegistry)   (* "unknown registry" *)
         end
     | _ => b_set b (BFailed stRegistry)          (* the bytes do not start with an identifier *)
@@ -340,11 +347,11 @@ Definition handshake_fields (c : bcfg) (intent : field) : list field :=
 Definition bot_join_init (c : bcfg) : bot :=
   {| b_ph := BSend idHandshake (handshake_fields c (FVarInt 2))
                (BSend sbLoginHello [FString (bc_name c); FUUID (bc_claim c)] BLogin);
-     b_thr := -1; b_name := []; b_uuid := bc_claim c |}.
+     b_thr := -1; b_name := []; b_uuid := bc_claim c; b_regs := [] |}.
 (* pingAndList *)
 Definition bot_ping_init (c : bcfg) : bot :=
   {| b_ph := BSend idHandshake (handshake_fields c (FByte 1)) (BSend sbStatusRequest [] BStatusList);
-     b_thr := -1; b_name := []; b_uuid := bc_claim c |}.
+     b_thr := -1; b_name := []; b_uuid := bc_claim c; b_regs := [] |}.
 
 (* ---------------------------------------------------------------- the server gate *)
 Definition scHandshake : N := 1.     (* handshake failed *)
